@@ -747,7 +747,7 @@ def known_finding(case, viol):
     boundary contact once match_2d has rotated them into the plane (1e-16 noise).
 
     Decided from the INPUT with the exact rational oracle. Key KNOWN_GEOS_TOUCHING iff the case is
-    an embedded (not xy-plane) pair, the violation is a match_2d matrix, and EVERY entry (i, j)
+    a triangle pair in any plane embedding, the violation is a match_2d matrix, and EVERY entry (i, j)
     that differs from the exact matrix belongs to two triangles whose exact intersection is
     non-empty with zero area, the reported value being the full area of one of the two triangles
     (to 1e-9; for scaling=None: a spurious 1). All other entries agree with the exact matrix, so
@@ -755,7 +755,9 @@ def known_finding(case, viol):
     same mechanism (one triangle contained in the other with boundary contact, overlap reported
     as 0) yields KNOWN_GEOS_CONTAINED; it only counts if that key is registered."""
     try:
-        if not case or case.get("kind") not in ("tri", "tri_pair", "tri_perm") or PLANE_EMBED[case["embed"]][0] not in ("n122", "skew"):
+        # (also in the xy-plane: match_2d centres the nodes at their mean, which is not exactly
+        # representable for e.g. six points, so the same 1e-16 noise reaches GEOS there)
+        if not case or case.get("kind") not in ("tri", "tri_pair", "tri_perm"):
             return None
         what = viol.get("what", "")
         if not what.startswith("match_2d(") or "raised" in what or "got_matrix" not in viol:
